@@ -96,6 +96,15 @@ fn child(dir: &str) {
             for o in outs {
                 let (d, s) = outcome(&o);
                 println!("T {} {} {}", o.name.replace(' ', "_"), d, s);
+                if std::env::var("SV_C03_LOGS").is_ok() {
+                    // debugging aid: the log receipts themselves (first/last 40)
+                    let n = o.logs.len();
+                    for (i, l) in o.logs.iter().enumerate() {
+                        if i < 40 || i + 40 >= n {
+                            match l { Log::Word { val, id } => println!("L {i} w {val} {id}"), Log::Data { id, data } => println!("L {i} d {id} {}", hex::encode(data)) }
+                        }
+                    }
+                }
             }
             println!("DONE");
         }
@@ -1250,7 +1259,36 @@ fn main() {
         }));
     }
     for h in handles { let _ = h.join(); }
-    let results = results.lock().unwrap();
+    let mut results = results.lock().unwrap();
+
+    // ---- confirmation: a differing outcome must reproduce. Both sides of every differing (package, list) pair are
+    // built and run once more (sequentially, machine less loaded); the second results are the ones reported, the
+    // line carries `rerun=<n differing tests in the first run>` so that an irreproducible difference stays visible
+    // in the evidence (key `rerun`) without being reported as a failing input that cannot be replayed.
+    let mut reruns: BTreeMap<(usize, String), usize> = BTreeMap::new();
+    for (pi, p) in pkgs.iter().enumerate() {
+        for (l, b) in &p.lists {
+            let (Some(Built::Tests(bt)), Some(Built::Tests(wt))) = (results.get(&(pi, b.clone())), results.get(&(pi, l.clone()))) else { continue };
+            let ndiff = bt.iter().filter(|t| wt.iter().find(|w| w.0 == t.0).map(|w| w.1 != t.1).unwrap_or(true)).count();
+            if ndiff == 0 || reruns.contains_key(&(pi, l.clone())) { continue; }
+            reruns.insert((pi, l.clone()), ndiff);
+            for which in [b.clone(), l.clone()] {
+                let dir = scratch.join("rerun");
+                let _ = std::fs::remove_dir_all(&dir);
+                if copy_dir(&p.dir, &dir).is_err() { continue; }
+                let (so, se, code) = run_child(&exe, "child", &dir, &which, timeout_s);
+                let res = if so.lines().any(|x| x == "DONE") {
+                    Built::Tests(so.lines().filter(|x| x.starts_with("T ")).map(|x| {
+                        let t: Vec<&str> = x.split(' ').collect();
+                        (t[1].to_string(), t[2].to_string(), t.get(3).unwrap_or(&"?").to_string())
+                    }).collect())
+                } else {
+                    Built::Err(classify_failure(&exe, &dir, &which, &so, &se, code, timeout_s))
+                };
+                results.insert((pi, which), res);
+            }
+        }
+    }
 
     // ---- lines
     let mut out = std::io::BufWriter::new(std::fs::File::create(&a.out).unwrap());
@@ -1269,7 +1307,8 @@ fn main() {
                     let wm: BTreeMap<&str, (&str, &str)> = wt.iter().map(|t| (t.0.as_str(), (t.1.as_str(), t.2.as_str()))).collect();
                     for (name, bd, bs) in bt {
                         let (wd, ws) = wm.get(name.as_str()).copied().unwrap_or(("missing", "missing"));
-                        writeln!(out, "passes {pname} {name} {lt} ;; base={bd} with={wd} bs={bs} ws={ws}").unwrap();
+                        let rr = reruns.get(&(pi, l.clone())).map(|n| format!(" rerun={n}")).unwrap_or_default();
+                        writeln!(out, "passes {pname} {name} {lt} ;; base={bd} with={wd} bs={bs} ws={ws}{rr}").unwrap();
                         nlines += 1;
                     }
                     for (name, wd, ws) in wt {
